@@ -1,6 +1,7 @@
 import JunoModel.Common.Proto
 import JunoModel.C18.Model
 import JunoModel.C18.ModelBlockTx
+import JunoModel.C18.ModelSDL
 /-! Line-protocol driver for the C18 models (`lake build c18drv`). See notes/C18.md for the
 request grammar. -/
 open Juno.Proto Juno.C18
@@ -11,6 +12,8 @@ structure DrvState where
   disk : Disk := ⟨none, fun _ => none⟩
   bt : BlockTx.Db := ⟨none, fun _ => ⟨none, [], [], none⟩⟩
   btN : Nat := 0
+  sdl : SDL.Db := ⟨none, fun _ => ⟨false, 0, 0⟩⟩
+  sdlN : Nat := 0
 
 def svHex (s : SV) : String := natToHex s.toNat
 def hexSV? (s : String) : Option SV := (hexToNat? s).bind fun n => if n < 2 ^ 64 then some (BitVec.ofNat 64 n) else none
@@ -122,6 +125,33 @@ def parseStep (tok : String) : Option BlockTx.Step :=
 def showRet : BlockTx.Ret → String
   | .done => "done" | .rerun => "rerun" | .failed => "failed" | .crashed => "crashed" | .diverged => "diverged"
 
+/-! ### state-diff-length encoding: `<present 0|1>:<diffLen>:<stored>` per block -/
+
+def parseSBlk (tok : String) : Option SDL.Blk :=
+  match tok.splitOn ":" with
+  | [p, d, st] => do
+    let p ← bool? p
+    let d ← d.toNat?
+    let st ← st.toNat?
+    pure ⟨p, d, st⟩
+  | _ => none
+
+def showSBlk (k : SDL.Blk) : String := s!"{if k.present then 1 else 0}:{k.diffLen}:{k.stored}"
+
+def parseSStep (tok : String) : Option SDL.Step :=
+  if tok.startsWith "P" then (parseEmit (String.ofList (tok.toList.drop 1))).map .pass
+  else if tok.startsWith "C" then
+    match (String.ofList (tok.toList.drop 1)).splitOn ":" with
+    | [e, bits] => do
+      let e ← parseEmit e
+      let bs ← if bits == "-" then some [] else bits.toList.mapM fun c => if c == '1' then some true else if c == '0' then some false else none
+      pure (.crash e bs)
+    | _ => none
+  else none
+
+def showSRet : SDL.Ret → String
+  | .done => "done" | .rerun n => s!"rerun:{n}" | .failed => "failed" | .crashed => "crashed"
+
 def step (s : DrvState) (line : String) : DrvState × String :=
   match words line with
   | ["cfg", a, b, c, d] =>
@@ -212,6 +242,22 @@ def step (s : DrvState) (line : String) : DrvState × String :=
       let db' : BlockTx.Db := ⟨db.height, fun b => arr.getD b ⟨none, [], [], none⟩⟩
       ({ s with bt := db' }, s!"{showRet r} {showBt db' s.btN}")
     | none => (s, "bad-op")
+  | "sdl.set" :: h :: blks =>
+    let h? : Option (Option Nat) := if h == "none" then some none else h.toNat?.map some
+    match h?, blks.mapM parseSBlk with
+    | some h, some l =>
+      let arr := l.toArray
+      ({ s with sdl := ⟨h, fun b => arr.getD b ⟨false, 0, 0⟩⟩, sdlN := l.length }, "ok")
+    | _, _ => (s, "bad-op")
+  | ["sdl.migrate", nx, st] =>
+    match nx.toNat?, parseSStep st with
+    | some nx, some st =>
+      let (db, r) := SDL.migrate s.sdl nx st
+      let arr := ((List.range s.sdlN).map db.blk).toArray
+      let db' : SDL.Db := ⟨db.height, fun b => arr.getD b ⟨false, 0, 0⟩⟩
+      let l := (List.range s.sdlN).map fun b => showSBlk (db'.blk b)
+      ({ s with sdl := db' }, s!"{showSRet r} {if l.isEmpty then "-" else " ".intercalate l}")
+    | _, _ => (s, "bad-op")
   | ["bt.first"] =>
     match s.bt.height with
     | none => (s, "noheight")
